@@ -153,7 +153,7 @@ class Session:
     """one server process per worker; every document gets its own URI and is closed again"""
     def __init__(s, variant="rel", diagnostics=True):
         s.variant = variant; s.diagnostics = diagnostics; s.srv = None; s.n = 0; s.deaths = 0
-        s.via_edit = .33; s.arrived = 0
+        s.via_edit = .33; s.arrived = 0; s.decoys_p = .2; s.decoy = {}; s.prev_text = None
 
     def server(s):
         if s.srv is None or not s.srv.alive():
@@ -166,10 +166,29 @@ class Session:
         uri = "file:///verif/%s%d.spl" % (tag, s.n)
         srv = s.server(); srv.drop_notes()
         if arrive(srv, uri, text, s.n, s.via_edit, prefer): s.arrived += 1
+        r = random.Random("decoy/%d/%d" % (len(text), s.n))
+        if s.decoys_p and r.random() < s.decoys_p:
+            # a second document stays open next to the one under test and is asked about right before it: the same text, a text of the
+            # same length with one name exchanged, or the previous document of this session. Whatever the server keeps from answering
+            # for the neighbour (documents never influence each other) must not show in the answers for this one.
+            d = uri + ".decoy"
+            kind = r.choice(["same_text", "same_length", "same_length", "previous"])
+            dt = text
+            if kind == "same_length":
+                names = sorted(set(re.findall(r"(?<![\w'])[a-z][A-Za-z0-9_]{1,}(?![\w'])", re.sub(r"//[^\n]*", "", text))) - {"proc", "type", "var", "if", "else", "while", "array", "of", "ref", "int", "main"})
+                if names:
+                    a = r.choice(names); b = a[:-1] + ("z" if a[-1] != "z" else "y")
+                    dt = re.sub(r"(?<![\w'])%s(?![\w'])" % re.escape(a), b, text, count=r.choice([1, 0]))
+            elif kind == "previous" and s.prev_text is not None: dt = s.prev_text
+            srv.open(d, dt); prime(srv, d, dt, r); s.decoy[uri] = d
+            _arr("with_an_open_neighbour_" + kind)
+        s.prev_text = text
         return uri
 
     def close(s, uri):
-        if s.srv is not None and s.srv.alive(): s.srv.close_doc(uri)
+        if s.srv is not None and s.srv.alive():
+            s.srv.close_doc(uri)
+            if uri in s.decoy: s.srv.close_doc(s.decoy.pop(uri))
 
     def req(s, method, params, timeout=20):
         return s.server().request(method, params, timeout)
